@@ -140,6 +140,59 @@ CHECKS.update({
         ref="4/C14"),
 })
 
+CHECKS.update({
+    "C01": dict(
+        technique="Lean 4 proof (binding invariant of _read over all key lists, cache states and operation histories; record-level cursor arithmetic of the direct-access reader) + correspondence with the real TsDB on synthesised files of all ten formats",
+        text="Theorems for any scalar type, any request order and requests that repeat keys: _read returns exactly the requested keys "
+             "(first occurrences, in order), each bound to the name/time/data stored on the file for the name it was registered under, "
+             "for every reader style (direct access with pos table, array indexing / loadtxt usecols, csv sorted-set + re-arrangement, "
+             "name-addressed); cached series are returned unchanged, store=False leaves the database unchanged, store=True caches, "
+             "registration data never changes; hence every history of lazy/eager loads and get/geta/getm/getl/getda by name, wildcard "
+             "or index returns the stored series. Direct-access reader: cursor before record i is (i+1)*4*ndat, row p holds record "
+             "ind[p] iff p is the last request of it. The model is compared with TsDB after every operation of seeded histories and "
+             "ordered-subset enumerations on real .ts .tda .bin .asc .dat .csv .h5 .pkl .mat .tdms files; an independent oracle checks "
+             "every returned value against what the generator wrote.",
+        note=TB + "Not modelled (tied by correspondence only): byte/text decoding, SIMA key-file parsing, h5py/nptdms/pymatreader, numpy fancy indexing / loadtxt(usecols) order and pandas usecols (stated assumptions). Known finding F15 (.asc first row).",
+        ref="4/C01"),
+    "C12": dict(
+        technique="Lean 4 proof over R (closed-form Butterworth-squared gain with bilinear warp tan(pi f dt); parameter plumbing through get/filter) + recorded scipy arguments + steady-state Float correspondence",
+        text="Theorems for all sampling intervals, cut-offs in (0,Nyquist) and frequencies: the design the code hands to scipy (order 5, "
+             "Wn = fc/(0.5/dt)) responds in Hz; gain exactly 1/2 at every cut-off, in (0,1), low-pass strictly decreasing / high-pass "
+             "increasing, band-pass rising to 1 at the warped centre then falling, lp+hp = bp+bs = 1, DC gain 1/0, explicit pass/stop-"
+             "band rates, order observable; steady state keeps frequency and phase, is linear, keeps/removes the mean, complementary "
+             "pairs reconstruct the signal; get(filterargs) designs for the step of the returned time array whatever window/resampling; "
+             "filter() == get(filterargs). Tied on every run by recording butter/filtfilt/sosfiltfilt arguments inside qats.signal and by "
+             "fitting amplitude/phase/mean of filtered long sinusoids (signal level and through TimeSeries.get/filter after window, "
+             "resample, taper, irregular grids).",
+        note=TB + "That scipy's butter+filtfilt/sosfiltfilt realise the specified squared magnitude with zero phase is measured (2e-5 of the amplitude; vs. independent butter(fs=)+freqz 1e-9), not proved; end transients excluded; cut-offs below 0.008 Nyquist not sampled.",
+        ref="4/C12"),
+    "C13": dict(
+        technique="Lean 4 proof (explicit-DFT Welch model, transform and window abstract, any ordered field) + Float correspondence + measured oracles",
+        text="Theorems: a*x -> a^2*P on signal.psd / TimeSeries.psd / calculate_psd, normalised spectrum amplitude-free, dt -> k*dt gives "
+             "f/k and k*P (density per Hz), invariance to an added constant on all three paths, frequencies = k/(nfft*dt) from 0 to "
+             "Nyquist with nfft//2+1 points, non-negativity, normalised maximum 1, uniform series: TimeSeries.psd = signal.psd with "
+             "dt = step and nperseg defaulting to n//4 (seven segments for n = 8q), success iff scipy's argument checks pass, nperseg "
+             "clipped to the length, steps differing by more than 1 % (+1e-6) rejected / constant step accepted. Tied by Float "
+             "correspondence (1e-9 of the peak) of signal.psd, TimeSeries.psd, calculate_psd and the resampled/tapered GUI signal on "
+             "seeded signals n <= 256 over dt, nperseg, noverlap, nfft, jitter, error cases. Oracles: independent numpy implementation "
+             "of the definition, grid, scaling, shift, time unit, normalisation, default, guard, clip; area = variance and peak location "
+             "on long multi-tone signals.",
+        note=TB + "scipy.signal.welch argument handling, periodic Hann window, np.isclose, linspace/interp1d modelled. Area = variance (Parseval) and peak location are measured (3 % / one bin), not proved.",
+        ref="4/C13"),
+    "C18": dict(
+        technique="Lean 4 proof (state machine ref/t/cache; invariant ref+t over all histories by induction, over any commutative group) + exhaustive/seeded Rat correspondence on histories",
+        text="Theorems: with a reference, ref+t_i of every sample is unchanged by every history of set_dtg_ref(x|None|invalid), copy, "
+             "dtg_time reads; relative times after a history = original + (old ref - new ref); built from stamps: instants = the "
+             "stamps, for ever; cache is empty or ref+t and a filled cache never goes stale; dtg_start/dtg_end = first/last instant; "
+             "first reference set on a reference-less series fixes the instants, t untouched; rejected calls leave the state unchanged "
+             "and are exactly {non-datetime, None without reference}; path independence / idempotence; _check_time_arrays passes iff "
+             "all references are equal. Tied by correspondence after every step on ALL histories of length <= 3 (4 thorough) over a "
+             "6-letter alphabet x 13 constructor kinds (floats, datetime, datetime64[us|ms|s|ns], pandas Timestamp) + seeded random "
+             "histories on a 1/64 s grid, and of the reference rule of _check_time_arrays.",
+        note=TB + "timedelta's microsecond rounding and float rounding not modelled: measured <= 1 us on realistic histories (tolerance 2 us).",
+        ref="4/C18"),
+})
+
 NOT_YET = {}
 
 PROPS = [json.loads(l) for l in open(os.path.join(HERE, "properties.jsonl"))]
